@@ -1725,8 +1725,9 @@ MANIFEST_ENTRY = {
              'files, every bit of the arrays read back (float64 and float32 results), reader behaviour at every truncation point of several '
              'files through all three routes; the property predicates are evaluated on the real outputs independently of the model.  ONLY '
              'COMPARED, not proved: IEEE evaluation of the formulas, struct/float32 packing, text tokenisation, that k < 834 is rejected by '
-             'NumPy; the "!" comment skipping and title/header line split of the Code V reader (sampled by codev.foreign, not translated); '
-             'uint16 intensity decoding (compared, no theorem).  OBSERVED, inside the property: a re-saved loaded map can lose one count per '
+             'NumPy.  Also proved (session 3): the Code V preamble over the GENERATED strip characters / marker (any number of "!" comment lines '
+             'skipped, then title line, header line, data: codev_preamble_roundtrip, gen_codev_preamble) and little-endian uint16 intensity '
+             'read-back at any offset (intensity_roundtrip).  OBSERVED, inside the property: a re-saved loaded map can lose one count per '
              'generation on some samples (float n*q/q just below n, truncated) - within one step each time.  NOT COVERED: .datx (HDF5) and Zygo '
              'ASCII (no reader), writing intensity (write_zygo_dat ignores its intensity argument), multi-line titles or titles starting with "!".'),
     'note': ('Trusted: Lean kernel + propext/Classical.choice/Quot.sound; tools/gen_c14.py (validated each run: every generated header row '
